@@ -80,7 +80,7 @@ def strategy(tier):
     @st.composite
     def _s(draw):
         model = G.gen_model(draw, c)
-        keep_known = draw(st.integers(0, 9)) == 0
+        keep_known = True  # nothing is carved out any more: gotranx can linearise these since the linearize() fix
         if not keep_known:
             for a in model["assigns"]:
                 for s in model["states"]:
